@@ -179,6 +179,31 @@ def observe(cmd, args):
             out = ",".join(_musllinux.platform_tags(plist(archs)))
         ld = "-" if not calls else "S" + fs_bytes(calls[0][0])
         return out + "|" + ld
+    if cmd == "p.muslreal":
+        # the REAL subprocess.run: sys.executable names a relative loader path below the scratch directory; what is there is set up from
+        # the case's loader list: the listed path is an executable script printing the case's banner on stderr, ./ld-musl-noexec.sh is a
+        # file without the x bit, ./ld-musl-dir.sh a directory, anything else is missing
+        archs, exe, stderr, loaders = args[:4]
+        cwd = os.getcwd()
+        root = os.path.join(_TMP, "real")
+        shutil.rmtree(root, True); os.makedirs(root)
+        with open(os.path.join(root, "banner"), "wb") as f: f.write(stderr.encode("utf-8", "surrogatepass"))
+        for name in plist(loaders):
+            if "\0" in name or not name.startswith("./"): continue
+            with open(os.path.join(root, name[2:]), "w") as f: f.write("#!/bin/sh\ncat banner >&2\n")
+            os.chmod(os.path.join(root, name[2:]), 0o755)
+        with open(os.path.join(root, "ld-musl-noexec.sh"), "w") as f: f.write("#!/bin/sh\ncat banner >&2\n")
+        os.chmod(os.path.join(root, "ld-musl-noexec.sh"), 0o644)
+        os.mkdir(os.path.join(root, "ld-musl-dir.sh"))
+        path = os.path.join(root, "python")
+        with open(path, "wb") as f: f.write(s2b(exe[1:]))
+        os.chdir(root)
+        clear_caches()
+        try:
+            with patched(sys, "executable", path):
+                return ",".join(_musllinux.platform_tags(plist(archs)))
+        finally:
+            os.chdir(cwd); clear_caches()
     if cmd == "p.elff":
         path = os.path.join(_TMP, "image")
         with open(path, "wb") as f: f.write(s2b(args[0]))
